@@ -53,6 +53,7 @@ type Func struct {
 	NoReturn    bool
 	Opaque      bool // never auto-inline; without ensures results are havocked
 	NoFrame     bool // frame obligations are not generated (top-level actions without verified callers)
+	Callbacks   map[string]*Callback
 	Props       []string
 	Foreach     *Foreach
 	Names       []string // alternative names for parameters? (unused)
@@ -62,6 +63,13 @@ type Func struct {
 	Implements  string   // "Iface.Method": this concrete method is checked against that interface contract
 	Sets        []*Clause // ghost updates: "sets g = expr" (externs)
 	Notes       []string
+}
+
+// Callback: specification of calls made through a function-typed parameter.
+type Callback struct {
+	Name     string
+	Havoc    bool
+	Requires []*Clause
 }
 
 type Foreach struct {
@@ -115,7 +123,7 @@ var keywords = map[string]bool{
 	"requires": true, "ensures": true, "loop": true, "modifies": true, "transparent": true,
 	"trusted": true, "safe": true, "pure": true, "property": true, "mode": true, "noreturn": true, "opaque": true,
 	"forall": true, "assume": true, "let": true, "assert": true, "foreach": true, "results": true,
-	"implements": true, "sets": true, "note": true, "noframe": true,
+	"implements": true, "sets": true, "note": true, "noframe": true, "callback": true,
 }
 
 type rawLine struct {
@@ -342,6 +350,37 @@ func Parse(path, src string) (*File, error) {
 				}
 				curF.Modifies = append(curF.Modifies, e)
 				curF.ModifiesTxt = append(curF.ModifiesTxt, p)
+			}
+		case "callback":
+			// callback NAME havoc            calls through function parameter NAME may write through their pointer arguments
+			// callback NAME requires EXPR    obligation at every call through NAME (arguments are arg0, arg1, ...)
+			if curF == nil {
+				return nil, errf("callback outside func")
+			}
+			fs := strings.Fields(c.rest)
+			if len(fs) < 2 {
+				return nil, errf("callback: want 'callback NAME havoc' or 'callback NAME requires EXPR'")
+			}
+			cb := curF.Callbacks[fs[0]]
+			if cb == nil {
+				cb = &Callback{Name: fs[0]}
+				if curF.Callbacks == nil {
+					curF.Callbacks = map[string]*Callback{}
+				}
+				curF.Callbacks[fs[0]] = cb
+			}
+			switch fs[1] {
+			case "havoc":
+				cb.Havoc = true
+			case "requires":
+				rest := strings.TrimSpace(strings.TrimPrefix(strings.TrimSpace(strings.TrimPrefix(c.rest, fs[0])), "requires"))
+				cl, err := mkClause("requires", rest)
+				if err != nil {
+					return nil, err
+				}
+				cb.Requires = append(cb.Requires, cl)
+			default:
+				return nil, errf("callback: unknown sub-clause %q", fs[1])
 			}
 		case "noframe":
 			if curF == nil {
@@ -746,6 +785,10 @@ func Desugar(s string) string {
 }
 
 func desugarList(inner string) string {
+	if t := strings.TrimSpace(inner); strings.HasPrefix(t, "forall ") || strings.HasPrefix(t, "exists ") {
+		// a parenthesised quantifier: the commas of its binder list are not argument separators
+		return Desugar(t)
+	}
 	ps := splitTop(inner, ',')
 	for k := range ps {
 		if strings.TrimSpace(ps[k]) != "" {
